@@ -127,10 +127,13 @@ fn parse_number(lex: &mut Lexer<Token>) -> String {
 }
 
 fn parse_doc_comment(lex: &Lexer<Token>) -> String {
+    // A carriage return inside the comment would end up inside the line comments
+    // of the generated bindings, where it terminates the comment (JavaScript) or
+    // is rejected (Rust doc comments).
     lex.slice()
         .trim_start_matches(LINE_COMMENT_PREFIX)
         .trim()
-        .to_string()
+        .replace('\r', " ")
 }
 
 pub type TriviaMap = Rc<RefCell<HashMap<usize, Vec<String>>>>;
